@@ -53,7 +53,11 @@ type run struct {
 	errs     []string
 	idxSort  *smt.Sort
 	pvSorts  map[string]*smt.Sort
+	autoUnrolled map[string]bool
 }
+
+// autoUnroll is the unroll bound used for loops that carry no loop contract.
+const autoUnroll = 12
 
 type edge struct {
 	from    *node
@@ -95,6 +99,8 @@ type frame struct {
 	params   map[string]Value
 	paramT   map[string]types.Type
 	dryLoop  *loop
+	unwinding *loop
+	unwindK   int
 }
 
 func (r *run) C() *smt.Ctx { return r.E.C }
@@ -1002,6 +1008,11 @@ func (fr *frame) addEdge(cur *node, from *ssa.BasicBlock, iter []int, s *ssa.Bas
 	if fr.dryLoop != nil && !fr.dryLoop.contains(s) {
 		return // dry run of a loop body: do not touch nodes outside the loop
 	}
+	if fr.unwinding != nil && fr.unwinding.contains(s) {
+		fr.r.oblige("unwind", fmt.Sprintf("%sunwind[%d]", fr.path, fr.unwinding.ordinal), cond, fr.r.C().False(),
+			fmt.Sprintf("loop %d of %s runs at most %d iterations", fr.unwinding.ordinal, fr.fn.Name(), fr.unwindK))
+		return
+	}
 	li := fr.li
 	ls := li.innermost[s]
 	lb := li.innermost[from]
@@ -1081,8 +1092,14 @@ func (fr *frame) runLoop(l *loop, iter []int) {
 	r := fr.r
 	spec := fr.loopSpec(l)
 	if spec == nil || (spec.Unroll == 0 && len(spec.Invariants) == 0) {
-		r.unsupported("loop %d of %s (header block %d, line %d) has neither invariant nor unroll bound",
-			l.ordinal, fr.fn.Name(), l.header.Index, r.E.lineOf(fr.fn, l.header))
+		// no loop contract: unroll a default number of times with an unwinding assertion. Sound (the
+		// assertion fails if the loop can run longer); it lets loops with small constant trip counts,
+		// e.g. introduced by a refactoring, be analysed without touching the contract file.
+		spec = &contract.LoopSpec{Ordinal: l.ordinal, Unroll: autoUnroll}
+		if r.assumedContracts != nil && r.dry == 0 {
+			r.autoUnrolled[fmt.Sprintf("%s loop %d (line %d): no loop contract, unrolled %d times with unwinding assertion",
+				fr.fn.Name(), l.ordinal, r.E.lineOf(fr.fn, l.header), autoUnroll)] = true
+		}
 	}
 	if spec.Line != 0 {
 		if got := r.E.lineOf(fr.fn, l.header); got != spec.Line {
@@ -1097,12 +1114,14 @@ func (fr *frame) runLoop(l *loop, iter []int) {
 				return
 			}
 			if k == K {
-				// unwinding assertion: the K+1-th entry of the header is unreachable
+				// after K iterations only the header runs (its exit edges continue); every edge from it
+				// back into the loop body is an unwinding assertion: it must be unreachable
 				n := fr.nodes[iterKey(l.header, it)]
-				n.computeGuard()
-				r.oblige("unwind", fmt.Sprintf("%sunwind[%d]", fr.path, l.ordinal), n.guard, r.C().False(),
-					fmt.Sprintf("loop %d unroll %d", l.ordinal, K))
-				n.done = true
+				saved := fr.unwinding
+				fr.unwinding = l
+				fr.unwindK = K
+				fr.runBlock(n, false)
+				fr.unwinding = saved
 				return
 			}
 			// first K instances run the body
@@ -1413,6 +1432,13 @@ func (r *run) alloc(cur *node, t types.Type, comment string) Value {
 	// zero-initialise
 	switch u := t.Underlying().(type) {
 	case *types.Array:
+		if r.scalarSort(u.Elem()) == nil {
+			if _, nested := u.Elem().Underlying().(*types.Array); !nested {
+				// arrays of composite elements (e.g. the [n]any of a variadic call) are left unconstrained
+				// instead of zeroed: weaker than Go's semantics, never unsound
+				break
+			}
+		}
 		r.store(cur, Loc{Heap: loc.Heap, Idxs: loc.Idxs, T: t}, ArrayV{A: r.zeroArray(u), T: u})
 		// rootLoc of an array points at "E$elem" (+"[]" added by store)
 	default:
